@@ -333,6 +333,19 @@ def user_check(variant):
     return user_check
 
 
+class UserLimits:
+    """A user's configured checker object; its bound method is the test function of a Call."""
+
+    def __init__(self, offset=0):
+        self.offset = offset
+
+    def limits_test(self, inp, tag=0):
+        return probe_flags(inp if not hasattr(inp, "to_numpy") else inp.to_numpy(), int(tag) + self.offset)
+
+
+USER_LIMITS = UserLimits(2)
+
+
 _REGISTERED = {}
 
 
